@@ -21,6 +21,26 @@ Proof.
       split; [|lia]. intros [E|Hin]; [lia|]. specialize (Fc k Hin). lia.
 Qed.
 
+(* the crange/misses arithmetic of the code is the first-free recursion *)
+Lemma misses_first_free : forall colors k,
+  match map snd (filter (fun p => negb (fst p =? snd p)) (combine colors (zrange k (length colors)))) with
+  | m :: _ => m
+  | [] => k + Z.of_nat (length colors)
+  end = first_free k colors.
+Proof.
+  induction colors as [|c r IH]; intros k; cbn [length zrange combine filter map first_free fst snd]; [lia|].
+  destruct (Z.eqb_spec c k) as [E|N]; cbn [negb].
+  - rewrite <- IH. destruct (map snd _); [lia|reflexivity].
+  - reflexivity.
+Qed.
+Lemma pick_from_first_free colors : pick_from colors = first_free 1 colors.
+Proof. unfold pick_from. rewrite <- misses_first_free. destruct (map snd _); [lia|reflexivity]. Qed.
+Lemma first_free_le : forall colors k, first_free k colors <= k + Z.of_nat (length colors).
+Proof.
+  induction colors as [|c r IH]; intros k; cbn [first_free length]; [lia|].
+  destruct (c =? k); [specialize (IH (k + 1)); lia|lia].
+Qed.
+
 Example first_free_example : first_free 1 [1; 2; 4; 7] = 3.
 Proof. reflexivity. Qed.
 Example first_free_hyp_example : StronglySorted Z.lt [1; 2; 4; 7] /\ (forall c, In c [1; 2; 4; 7] -> 1 <= c).
@@ -73,7 +93,7 @@ Lemma pick_color_spec (L : list Z) : (forall c, In c L -> 0 <= c) ->
   1 <= pick_color (zunique L) /\ forall c, In c L -> c <> 0 -> pick_color (zunique L) <> c.
 Proof.
   intros NN. pose proof (zunique_sorted L) as SS. pose proof (zunique_in L) as IN.
-  destruct (zunique L) as [|c0 rest] eqn:EU; cbn [pick_color].
+  destruct (zunique L) as [|c0 rest] eqn:EU; cbn [pick_color]; rewrite ?pick_from_first_free.
   - split; [lia|]. intros c Hc. apply IN in Hc. destruct Hc.
   - apply StronglySorted_inv in SS. destruct SS as [SSr F0]. rewrite Forall_forall in F0.
     assert (P0 : 0 <= c0) by (apply NN; apply IN; left; reflexivity).
@@ -88,6 +108,24 @@ Proof.
       destruct (first_free_spec (c0 :: rest) 1 SS) as [NI GE].
       { intros c [<-|Hc]; [lia|]. specialize (F0 c Hc). lia. }
       split; [exact GE|]. intros c Hc Hn E. apply IN in Hc. apply NI. rewrite E. exact Hc.
+Qed.
+
+Lemma insert_by_length {A} (key : A -> Z) (x : A) l : length (insert_by key x l) = S (length l).
+Proof. induction l as [|a l IH]; cbn [insert_by length]; [reflexivity|]. destruct (key x <=? key a); cbn [length]; lia. Qed.
+Lemma zsort_length l : length (zsort l) = length l.
+Proof. unfold zsort, sort_by. induction l as [|a l IH]; cbn [fold_right length]; [reflexivity|]. rewrite insert_by_length, IH. reflexivity. Qed.
+Lemma dedup_length l : (length (dedup l) <= length l)%nat.
+Proof.
+  induction l as [|x r IH]; [cbn; lia|]. destruct r as [|z r']; [cbn; lia|].
+  change (dedup (x :: z :: r')) with (if x =? z then dedup (z :: r') else x :: dedup (z :: r')).
+  destruct (x =? z); cbn [length] in *; lia.
+Qed.
+Lemma pick_color_le colors : pick_color colors <= 1 + Z.of_nat (length colors).
+Proof.
+  destruct colors as [|c0 rest]; cbn [pick_color length]; [lia|].
+  destruct (c0 =? 0).
+  - destruct rest as [|c1 r]; [lia|]. rewrite pick_from_first_free. pose proof (first_free_le (c1 :: r) 1). cbn [length] in *. lia.
+  - rewrite pick_from_first_free. pose proof (first_free_le (c0 :: rest) 1). cbn [length] in *. lia.
 Qed.
 
 Section Coloring.
@@ -153,6 +191,35 @@ Proof.
   - rewrite app_nil_r. exact I.
   - replace (S ++ snd r :: map snd rows) with ((S ++ [snd r]) ++ map snd rows) by (rewrite <- app_assoc; reflexivity).
     apply IH; [intros; apply H; right; auto|]. apply color_step_inv; [apply H; left; auto|exact I].
+Qed.
+(* ---- Welsh-Powell bound: a label never gets a colour above 1 + its number of neighbours ---- *)
+Lemma counts_nonneg k : 0 <= nth k v_count 0.
+Proof.
+  unfold v_count, find_neighbors. cbn [fst].
+  destruct (nth_in_or_default k (map (fun l => count_label l (map fst (neighbor_pairs img))) (zrange 1 (Z.to_nat (img_max img)))) 0) as [H|H].
+  - apply in_map_iff in H. destruct H as [l [<- _]]. unfold count_label. lia.
+  - rewrite H. lia.
+Qed.
+Definition BInv (vc : list Z) : Prop :=
+  length vc = Datatypes.S n /\ forall l, 1 <= l <= img_max img -> getl vc l <= 1 + nth (Z.to_nat (l - 1)) v_count 0.
+Lemma color_step_bound vc r : row_ok r -> BInv vc -> BInv (color_step v_neighbor vc r).
+Proof.
+  destruct r as [[cnt idx] lab]. intros [Hlab [Ec Ei]] [LEN B]. unfold color_step. split; [rewrite set_nth_length; exact LEN|].
+  intros l Hl. destruct (Z.eq_dec l lab) as [->|Nl].
+  - set (L := map (getl vc) (slice idx cnt v_neighbor)). set (k := pick_color (zunique L)).
+    assert (G : getl (set_nth (Z.to_nat lab) k vc) lab = k) by (unfold getl; apply set_nth_same; rewrite LEN; unfold n; lia).
+    rewrite G. unfold k.
+    pose proof (pick_color_le (zunique L)) as P. unfold zunique in P at 2.
+    pose proof (dedup_length (zsort L)) as H. rewrite zsort_length in H. unfold L in H at 2. rewrite map_length in H.
+    assert (H2 : (length (slice idx cnt v_neighbor) <= Z.to_nat cnt)%nat) by (unfold slice; rewrite firstn_length; lia).
+    pose proof (counts_nonneg (Z.to_nat (lab - 1))) as NNg. rewrite <- Ec in *. lia.
+  - unfold getl. rewrite set_nth_other by lia. apply B. exact Hl.
+Qed.
+Lemma color_fold_bound rows : forall vc, (forall r, In r rows -> row_ok r) -> BInv vc ->
+  BInv (fold_left (color_step v_neighbor) rows vc).
+Proof.
+  induction rows as [|r rows IH]; intros vc H I; cbn [fold_left]; [exact I|].
+  apply IH; [intros; apply H; right; auto|]. apply color_step_bound; [apply H; left; auto|exact I].
 Qed.
 End Coloring.
 
@@ -228,6 +295,50 @@ Proof.
         split; [reflexivity|]. apply ROWS. tauto. }
       pose proof (G l Hl). pose proof (G m Hm).
       apply (c_proper _ _ _ IF l m Hl Hm Hin); lia.
+Qed.
+
+(* Welsh-Powell: the colour table never exceeds 1 + (number of neighbours of the label), hence
+   1 + the maximal degree; the rows are processed in the order produced by lexsort([-v_count]) *)
+Theorem coloring_degree_bound (img : image) v_color : rect img -> color_table img = Some v_color ->
+  forall l, 1 <= l <= img_max img ->
+    getl v_color l <= 1 + nth (Z.to_nat (l - 1)) (fst (fst (find_neighbors img))) 0.
+Proof.
+  intros R. destruct (find_neighbors_spec img R) as [LC [LI _]]. unfold color_table.
+  destruct (find_neighbors img) as [[v_count v_index] v_neighbor] eqn:EF. cbn [fst snd] in LC, LI |- *.
+  destruct (forallb (fun c => c =? 0) v_count); [discriminate|]. intros E. inversion E; subst v_color. clear E.
+  set (rows := sort_by _ _).
+  assert (RO : forall r, In r rows -> row_ok img r).
+  { intros [[cnt idx] lab] Hr. unfold rows in Hr. rewrite sort_by_in in Hr. apply filter_In in Hr. destruct Hr as [Hr _].
+    assert (LCI : length (combine v_count v_index) = length v_count) by (rewrite combine_length; lia).
+    rewrite <- LCI in Hr. apply (combine_zrange_in (0, 0)) in Hr. destruct Hr as [k [Hk [El Ex]]].
+    rewrite LCI in Hk. rewrite combine_nth in Ex by lia. inversion Ex; subst.
+    unfold row_ok. rewrite EF. cbn [fst snd]. replace (Z.to_nat (1 + Z.of_nat k - 1)) with k by lia. repeat split; lia. }
+  pose proof (color_fold_bound img rows (0 :: map (fun c => if c =? 0 then 1 else 0) v_count) RO) as FB.
+  unfold BInv in FB. rewrite EF in FB. cbn [fst snd] in FB. apply FB.
+  split; [cbn [length]; rewrite map_length; lia|].
+  intros l Hl. unfold getl. replace (Z.to_nat l) with (S (Z.to_nat (l - 1))) by lia. cbn [nth].
+  rewrite nth_map0 by lia. pose proof (counts_nonneg img (Z.to_nat (l - 1))) as NNg. rewrite EF in NNg. cbn [fst] in NNg.
+  destruct (nth (Z.to_nat (l - 1)) v_count 0 =? 0); lia.
+Qed.
+
+(* the processing order: a permutation of the rows sorted by non-increasing neighbour count *)
+Lemma insert_by_sorted {A} (key : A -> Z) (x : A) l :
+  StronglySorted (fun a b => key a <= key b) l -> StronglySorted (fun a b => key a <= key b) (insert_by key x l).
+Proof.
+  induction 1 as [|a l SS IH Fa]; cbn [insert_by]; [repeat constructor|].
+  rewrite Forall_forall in Fa. destruct (Z.leb_spec (key x) (key a)) as [L|L].
+  - constructor; [constructor; [exact SS|apply Forall_forall; exact Fa]|].
+    apply Forall_forall. intros y [<-|Hy]; [exact L|]. specialize (Fa y Hy). lia.
+  - constructor; [exact IH|]. apply Forall_forall. intros y Hy. apply insert_by_in in Hy.
+    destruct Hy as [->|Hy]; [lia|auto].
+Qed.
+Theorem sort_by_sorted {A} (key : A -> Z) (l : list A) :
+  StronglySorted (fun a b => key a <= key b) (sort_by key l) /\ (forall y, In y (sort_by key l) <-> In y l) /\
+  length (sort_by key l) = length l.
+Proof.
+  split; [|split; [apply sort_by_in|]].
+  - unfold sort_by. induction l as [|a l IH]; cbn [fold_right]; [constructor|]. apply insert_by_sorted. exact IH.
+  - unfold sort_by. induction l as [|a l IH]; cbn [fold_right length]; [reflexivity|]. rewrite insert_by_length, IH. reflexivity.
 Qed.
 
 Example coloring_example : color_labels [[1; 1; 0]; [0; 2; 0]; [3; 0; 4]] = [[2; 2; 0]; [0; 1; 0]; [2; 0; 2]].
